@@ -14,7 +14,7 @@ KIND_PROPS = {
     "pages": ["C05"], "crawledpages": ["C05"],
     "report.we": ["C06", "C12"], "potential": ["C06"],
     "network": ["C07"],
-    "pagelinks": ["C08"], "weout": ["C08"], "wein": ["C08"],
+    "pagelinks": ["C08"], "weout": ["C08"], "wein": ["C08"], "wedeg": ["C08"],
     "paginate": ["C09"], "paginatelinks": ["C10"], "token": ["C09", "C10"],
     "parents": ["C13"], "children": ["C13"],
     "expand": ["C17"], "variations": ["C17"],
@@ -91,7 +91,7 @@ class Judge(object):
 
     # ---- writes
     def write(self, idx, line, w, ans):
-        if w[0] in ("init", "clear"):
+        if w[0] in ("init", "clear", "overwrite"):
             self.max_id = 0
             self.epis = {}
             if w[0] == "init":
